@@ -1,3 +1,5 @@
 import StirVerif.C06.ProofsSym
 import StirVerif.C06.ProofsSubsets
 import StirVerif.C06.ProofsSched
+import StirVerif.C06.ProofsRecon
+import StirVerif.C06.ProofsProj
